@@ -55,6 +55,9 @@ class StackGen:
                     out.append([f"new cap={cap} exp=2"] + list(seq) + ["destroy"])
         out.append(["new_default", "push 1", "push 2", "pop", "peek", "destroy_cb"])
         out.append(["new cap=0 exp=2", "destroy"])
+        if focus in ("reject", "all"):
+            for cap in (2 ** 61 - 1, 2 ** 61, 2 ** 62, 2 ** 63, 2 ** 64 - 1):
+                out.append([f"new cap={cap} exp=2", "push 1", "destroy"])
         out.append(["new cap=2", "push 1", "push 2", "push 3", "mk_filter to=1", "destroy_cb"])
         return out
 
